@@ -95,7 +95,7 @@ O("C08.epoch.roundtrip.stratum", ["C08"], "h_C08_epoch.c", "h_C08_epoch_roundtri
 
 O("C08.tstamp", ["C08", "C04"], "h_C08_tstamp.c", "h_C08_tstamp",
   "instant_to_tstamp(i) (the value the daemon arms its timer with) is exactly the unix time of the instant, for every valid instant 1901..2099",
-  ["instant_to_tstamp"], defines=["-DTS_YLO=1901U"], solver=["minisat", "kissat", "z3"], timeout={"quick": 900, "thorough": 1800}, **ECHSD_NATIVE)
+  ["instant_to_tstamp"], defines=["-DTS_YLO=1901U"], solver=["minisat", "kissat", "z3"], timeout={"quick": 1800, "thorough": 3600}, **ECHSD_NATIVE)
 
 # ------------------------------------------------------------------ C19
 P("C19", level="proof",
@@ -176,7 +176,7 @@ for tab, n in (("dat_ummulqura", 1752), ("dat_diyanet", 1526)):
     O("C15.table.%s" % tab[4:], "C15", "h_C15.c", "h_C15_table",
       "%s: every day of 1901..2099: covered days map to a real date, back to the same day, to the right weekday and successor; days outside the coverage are rejected (scan over the constant table unwound completely)" % tab,
       ["mjd2ht", "ht2mjd", "__ndim_ht", "__wday_ht"], defines=["-DTABLE=" + tab] + (["-DTABLE_COVERS_1901"] if tab == "dat_diyanet" else []), unwind=n + 2,
-      solver=["minisat", "kissat"], timeout={"quick": 900, "thorough": 1800})
+      solver=["minisat", "kissat"], timeout={"quick": 1800, "thorough": 3600})
 O("C15.rescale.reject", "C15", "h_C15.c", "h_C15_rescale_reject",
   "echs_instant_rescale(table scale -> Gregorian): dates outside the table are rejected, covered dates map to the Gregorian date of their day number",
   ["echs_instant_rescale", "ht2mjd", "mjd2g"], solver=["minisat", "kissat"], native_srcs=["tzob.c", "tzraw.c", "hash.c", "instant.c"])
@@ -185,7 +185,7 @@ O("C15.dispatch", "C15", "h_C15.c", "h_C15_dispatch",
   ["echs_scale_ndim", "echs_scale_wday"], solver=["minisat", "kissat"], timeout={"quick": 600, "thorough": 1800})
 O("C15.rescale.roundtrip", "C15", "h_C15.c", "h_C15_rescale_roundtrip",
   "echs_instant_rescale: Gregorian -> arithmetic Hijri scale -> Gregorian is the identity for every date 1938..2076, scale tag kept",
-  ["echs_instant_rescale"], solver=["minisat", "kissat"], timeout={"quick": 900, "thorough": 1800}, native_srcs=["tzob.c", "tzraw.c", "hash.c", "instant.c"])
+  ["echs_instant_rescale"], solver=["minisat", "kissat"], timeout={"quick": 1800, "thorough": 3600}, native_srcs=["tzob.c", "tzraw.c", "hash.c", "instant.c"])
 
 # ------------------------------------------------------------------ C20
 P("C20", level="other",
@@ -209,7 +209,7 @@ for n, tiers in ((3, ["quick", "thorough"]), (5, ["quick", "thorough"]), (8, ["t
       solver=["minisat", "kissat"], timeout={"quick": 600, "thorough": 3600}, native_srcs=["instant.c"])
 
 # ------------------------------------------------------------------ C01 kernels / C17 Easter
-K = dict(solver=["minisat", "kissat"], timeout={"quick": 900, "thorough": 1800},
+K = dict(solver=["minisat", "kissat"], timeout={"quick": 1800, "thorough": 3600},
          native_srcs=[x for x in LIBECHSE if x != "evrrul.c"], native_libs=["-lltdl", "-lm"])
 O("C01.k.wday", ["C01", "C16"], "h_C01k.c", "h_C01_k_wday",
   "ymd_get_wday, get_jan01_wday, yd_get_wday, ymd_get_yd, __get_ndom, get_isowk, inc_wd equal the spec for every date 1901..2099",
@@ -380,7 +380,7 @@ EF = dict(dfcc=True, loop_contracts=True, with_unwind=True,
           replace=["bi447_next", "bui31_next", "bi31_next", "bui63_next", "ymd_get_wday", "__get_ndom"],
           replace_status={"bi447_next": "discharged by C19.bi447_next", "bui31_next": "discharged by C19.bui31_next", "bi31_next": "discharged by C19.bi31_next",
                           "bui63_next": "discharged by C19.bui63_next", "ymd_get_wday": "discharged by C01.k.wday", "__get_ndom": "discharged by C01.k.wday"},
-          solver=["minisat"], mem_gb=28, timeout={"quick": 1500, "thorough": 7200}, replay=False, replay_note="callees replaced by contracts, symbolic container states",
+          solver=["minisat"], mem_gb=28, timeout={"quick": 3000, "thorough": 7200}, replay=False, replay_note="callees replaced by contracts, symbolic container states",
           defines=["-DRR_INTER_MAX=64U"])
 O("C09.Sly", ["C09", "C16", "C01"], "h_C09.c", "h_C09_Sly",
   "rrul_fill_Sly: memory safe, returns <= nti and <= COUNT, terminates, output strictly increasing, within [DTSTART, UNTIL], real date-times - for every valid DTSTART, every well-formed container state, INTERVAL 1..64 (thorough tier only: 24 min, 14 GB on this machine)",
@@ -424,7 +424,7 @@ O("C09.dly", ["C09", "C16", "C01"], "h_C09.c", "h_C09_dly",
   replace_status={"bi447_next": "discharged by C19.bi447_next", "bui31_next": "discharged by C19.bui31_next", "bi31_next": "discharged by C19.bi31_next",
                   "echs_scale_ndim": "discharged for the Gregorian scale by C15.dispatch/C15.greg", "echs_scale_wday": "discharged by C15.dispatch/C15.greg",
                   "echs_instant_rescale": "identity on the Gregorian scale (C15.rescale.*)", "make_enum": "discharged by C09.make_enum (1..24/60/61 entries) for rules the parser lets through (C09.snarf_rrule.*)", "rrul_fill_wly": "trusted: returns <= nti (not discharged)"},
-  solver=["minisat", "kissat", "cadical"], mem_gb=28, timeout={"quick": 1500, "thorough": 7200}, replay=False, replay_note="callees replaced by contracts",
+  solver=["minisat", "kissat", "cadical"], mem_gb=28, timeout={"quick": 3000, "thorough": 7200}, replay=False, replay_note="callees replaced by contracts",
   defines=["-DRR_INTER_MAX=1000U"])
 # C17.shift.days (harness h_C17_shift_days exists): out of memory / no answer at |N| <= 62 (both halves of shift() and the
 # +-383 container's insert path are in one formula) - not registered
@@ -494,14 +494,14 @@ O("C14.echsx", ["C14", "C12"], "h_C14x.c", "h_C14_echsx",
   replace=["prep_task", "run_task", "mail_task", "jlog_task", "free_task"],
   replace_status={"prep_task": "recording contract (not discharged: pipes, files)", "run_task": "recording contract (not discharged: spawn, event loop)",
                   "mail_task": "recording contract (not discharged)", "jlog_task": "recording contract (not discharged)", "free_task": "recording contract (not discharged)"},
-  solver=["minisat", "kissat", "cadical"], timeout={"quick": 900, "thorough": 1800}, replay=False, replay_note="system calls stubbed, phases replaced by contracts",
+  solver=["minisat", "kissat", "cadical"], timeout={"quick": 1800, "thorough": 3600}, replay=False, replay_note="system calls stubbed, phases replaced by contracts",
   assumptions=["alarm/time/sigaction/sigprocmask/kill/setuid/setgid/getpw*/umask/snprintf replaced by fixed-arity stubs (every failure return allowed)",
                "echs_instant_to_epoch replaced by a symbolic value (discharged separately: C08.epoch.to)",
                "logging macros pre-empted (variadic)", "main() of echsx.c renamed, never called"])
 O("C14.timeo_cb", ["C14"], "h_C14x.c", "h_C14_timeo_cb",
   "timeo_cb (the SIGALRM handler echsx installs): sends SIGXCPU to the running job, exactly once",
   ["timeo_cb", "block_sigs"], solver=["minisat", "kissat"], timeout={"quick": 600, "thorough": 1800}, replay=False, replay_note="system calls stubbed")
-EM = dict(unwind=6, solver=["minisat", "kissat", "cadical"], timeout={"quick": 900, "thorough": 1800}, replay=False, replay_note="number reading and printer stubbed",
+EM = dict(unwind=6, solver=["minisat", "kissat", "cadical"], timeout={"quick": 1800, "thorough": 3600}, replay=False, replay_note="number reading and printer stubbed",
           cbmc_flags=["--malloc-may-fail", "--malloc-fail-null"],
           assumptions=["strtol replaced by a stub returning an arbitrary long and consuming the whole value (libc number reading trusted)",
                        "fdprnt.h replaced by a fixed-arity recorder of the X-ECHS-MAX-SIMUL / X-ECHS-UMASK lines (libc %d/%o formatting trusted)",
@@ -534,7 +534,7 @@ for bmax, uw, tiers in ((6, 3, ["quick", "thorough"]),):
                    "one candidate per call: the candidate loop treats each member independently (read, not proved)",
                    "whether the move off a weekend counts as one of the N business days is left open (both accepted): the property's text does not fix it",
                    "the backward-goto month walk is unwound %d times with unwinding assertions on: complete for the stated N" % uw])
-EE = dict(unwind=4, solver=["minisat", "kissat", "cadical"], timeout={"quick": 900, "thorough": 1800},
+EE = dict(unwind=4, solver=["minisat", "kissat", "cadical"], timeout={"quick": 1800, "thorough": 3600},
           native_srcs=[x for x in LIBECHSE if x != "evrrul.c"], native_libs=["-lltdl", "-lm"],
           assumptions=["ass_bi383 / bi383_next replaced by their native-mode behaviour for a container of at most one value (the real ones: C19.ass_bi383, C19.bi383_next); the native replay links the real bitint.c",
                        "one offset per call: the offset loop treats each member independently (read, not proved)", "no BYMONTH/BYMONTHDAY/BYDAY mask"])
@@ -565,7 +565,7 @@ O("C01.fill_mly_ymcw", ["C01"], "h_C17s.c", "h_C01_fill_mly_ymcw",
 O("C01.clr_poss", ["C01"], "h_C17s.c", "h_C01_clr_poss",
   "clr_poss (BYSETPOS=P on the candidate days of one period): of 0..3 candidates exactly the P-th (P-th last for negative P) is kept, nothing when the set is smaller",
   ["clr_poss"], kind="bounded", bound="candidate set of 0..3 days, one BYSETPOS value in +-1..4", **dict(EE, unwind=6))
-ED = dict(solver=["minisat", "kissat", "cadical"], timeout={"quick": 900, "thorough": 1800}, replay=False, replay_note="container replaced by a bitmap",
+ED = dict(solver=["minisat", "kissat", "cadical"], timeout={"quick": 1800, "thorough": 3600}, replay=False, replay_note="container replaced by a bitmap",
           assumptions=["ass_bi383 replaced by a 384-bit bitmap writer (the real one: C19.ass_bi383); membership is decided through a symbolic witness value, both directions",
                        "echs_scale_ndim / echs_scale_wday replaced by the Gregorian spec values (C15.dispatch / C15.greg)",
                        "loops over the days of a month / year unwound completely (unwinding assertions on)"])
@@ -617,13 +617,13 @@ O("C09.make_enum", ["C09"], "h_C09e.c", "h_C09_make_enum",
   "make_enum (the time-of-day arrays every filler indexes): for every BYHOUR within 0..23, BYMINUTE within 0..59, BYSECOND within 0..60 and every DTSTART time it writes inside its three arrays, yields 1..24 / 1..60 / 1..61 entries, each a member of its BYxxx set (DTSTART's value when the set is empty), strictly increasing; the loops terminate",
   ["make_enum"], dfcc=True, loop_contracts=True, replace=["bui31_next", "bui63_next"],
   replace_status={"bui31_next": "discharged by C19.bui31_next", "bui63_next": "discharged by C19.bui63_next"},
-  solver=["minisat", "kissat", "cadical"], timeout={"quick": 900, "thorough": 1800}, replay=False, replay_note="iterators replaced by contracts")
+  solver=["minisat", "kissat", "cadical"], timeout={"quick": 1800, "thorough": 3600}, replay=False, replay_note="iterators replaced by contracts")
 for k, (key, what) in enumerate((("BYMONTH", "1..12"), ("BYHOUR", "0..23"), ("BYMINUTE", "0..59"), ("BYSECOND", "0..60"), ("INTERVAL", "1..INT_MAX"), ("BYMONTHDAY", "+-1..31"), ("BYWEEKNO", "+-1..53"),
                                ("BYYEARDAY", "+-1..366"), ("BYSETPOS", "+-1..366"), ("BYEASTER", "-366..366"), ("BYDAY", "ordinals -53..53 with MO/TU/SU"))):
     O("C09.snarf_rrule.%s" % key, ["C09"], "h_C09p.c", "h_C09_snarf_rrule",
       "snarf_rrule: whatever three numbers stand behind %s, the rule's containers stay well-formed and hold exactly the listed values within %s - the precondition of C09.make_enum and the filler obligations" % (key, what),
       ["snarf_rrule", "ass_bui31", "ass_bui63", "ass_bi31", "ass_bi63", "ass_bi383", "ass_bi447", "snarf_wday", "__evrrul_key"], defines=['-DRRKEY="%s"' % key, "-DRRK=%d" % k],
-      unwind=40, solver=["minisat", "kissat", "cadical"], timeout={"quick": 900, "thorough": 1800},
+      unwind=40, solver=["minisat", "kissat", "cadical"], timeout={"quick": 1800, "thorough": 3600},
       native_srcs=[x for x in LIBECHSE if x != "evical.c"], native_libs=["-lltdl", "-lm"],
       # pack_cd() left-shifts a negative ordinal (formally undefined, every supported compiler shifts arithmetically);
       # the property is about memory safety and termination, so that check is not part of this obligation
@@ -637,7 +637,7 @@ O("C09.wly", ["C09", "C16", "C01"], "h_C09.c", "h_C09_wly",
   replace_status={"bi447_next": "discharged by C19.bi447_next", "bui31_next": "discharged by C19.bui31_next",
                   "echs_scale_ndim": "discharged for the Gregorian scale by C15.dispatch/C15.greg", "echs_scale_wday": "discharged by C15.dispatch/C15.greg",
                   "echs_instant_rescale": "identity on the Gregorian scale (C15.rescale.*)", "make_enum": "discharged by C09.make_enum (1..24/60/61 entries) for rules the parser lets through (C09.snarf_rrule.*)"},
-  solver=["minisat", "kissat", "cadical"], mem_gb=28, timeout={"quick": 1500, "thorough": 7200}, replay=False, replay_note="callees replaced by contracts",
+  solver=["minisat", "kissat", "cadical"], mem_gb=28, timeout={"quick": 3000, "thorough": 7200}, replay=False, replay_note="callees replaced by contracts",
   defines=["-DRR_INTER_MAX=100U"])
 O("C09.Hly", ["C09", "C16", "C01"], "h_C09.c", "h_C09_Hly",
   "rrul_fill_Hly: memory safe incl. the minute/second enumeration and the BYYEARDAY walk, returns <= nti and <= COUNT, every loop terminates (weekday stays in Mon..Sun, the cursor strictly advances), occurrences within [DTSTART, UNTIL] - for every valid DTSTART, every well-formed container state, INTERVAL 1..1000 (steps of up to 41 days)",
@@ -645,7 +645,7 @@ O("C09.Hly", ["C09", "C16", "C01"], "h_C09.c", "h_C09_Hly",
   replace=["bi447_next", "bi383_next", "bui31_next", "bi31_next", "ymd_get_wday", "__get_ndom", "make_enum"],
   replace_status={"bi447_next": "discharged by C19.bi447_next", "bi383_next": "discharged by C19.bi383_next", "bui31_next": "discharged by C19.bui31_next", "bi31_next": "discharged by C19.bi31_next",
                   "ymd_get_wday": "discharged by C01.k.wday", "__get_ndom": "discharged by C01.k.wday", "make_enum": "discharged by C09.make_enum (1..24/60/61 entries) for rules the parser lets through (C09.snarf_rrule.*)"},
-  solver=["minisat"], mem_gb=28, timeout={"quick": 1500, "thorough": 7200}, replay=False, replay_note="callees replaced by contracts",
+  solver=["minisat"], mem_gb=28, timeout={"quick": 3000, "thorough": 7200}, replay=False, replay_note="callees replaced by contracts",
   defines=["-DRR_INTER_MAX=1000U"])
 O("C09.Mly", ["C09", "C16", "C01"], "h_C09.c", "h_C09_Mly",
   "rrul_fill_Mly: memory safe incl. the second enumeration, returns <= nti and <= COUNT, every loop terminates, occurrences within [DTSTART, UNTIL] - for every valid DTSTART, every well-formed container state, INTERVAL 1..1000",
@@ -653,5 +653,5 @@ O("C09.Mly", ["C09", "C16", "C01"], "h_C09.c", "h_C09_Mly",
   replace=["bi447_next", "bui31_next", "bi31_next", "bui63_next", "ymd_get_wday", "__get_ndom", "make_enum"],
   replace_status={"bi447_next": "discharged by C19.bi447_next", "bui31_next": "discharged by C19.bui31_next", "bi31_next": "discharged by C19.bi31_next", "bui63_next": "discharged by C19.bui63_next",
                   "ymd_get_wday": "discharged by C01.k.wday", "__get_ndom": "discharged by C01.k.wday", "make_enum": "discharged by C09.make_enum (1..24/60/61 entries) for rules the parser lets through (C09.snarf_rrule.*)"},
-  solver=["minisat", "kissat", "cadical"], mem_gb=28, timeout={"quick": 1500, "thorough": 7200}, replay=False, replay_note="callees replaced by contracts",
+  solver=["minisat", "kissat", "cadical"], mem_gb=28, timeout={"quick": 3000, "thorough": 7200}, replay=False, replay_note="callees replaced by contracts",
   defines=["-DRR_INTER_MAX=1000U"])
